@@ -30,6 +30,8 @@ pub(crate) mod kani_gf2 {
         check_len!(2);
         check_len!(5);
         check_len!(6);
+        let probe: u64 = kani::any();
+        kani::cover!(probe == 0x8000_0000_0000_0001, "reach");
     }
 
     // src longer than dest is allowed (only the first dest.len() words are read); src shorter is refused by the slice index
@@ -41,6 +43,7 @@ pub(crate) mod kani_gf2 {
         let before = buf;
         add_assign_binary(&mut buf[0..3], &src[0..6]);
         assert!(buf[0] == before[0] ^ src[0] && buf[1] == before[1] ^ src[1] && buf[2] == before[2] ^ src[2] && buf[3] == before[3], "C16 add_assign_binary with a longer src");
+        kani::cover!(src[5] != 0 && buf[2] != before[2], "reach");
     }
 
     #[kani::proof]
